@@ -84,12 +84,14 @@ class FlowFields(ImageBatch):
 
     def _make_instance(
         self: TFlowFields,
-        data: Tensor,
+        data: Optional[Tensor] = None,
         grid: Optional[Sequence[Grid]] = None,
         axes: Optional[Axes] = None,
         **kwargs,
     ) -> Union[TFlowFields, ImageBatch]:
         r"""Create a new instance while preserving subclass meta-data."""
+        if data is None:
+            data = self
         if data.shape[1] != data.ndim - 2:
             return ImageBatch(data, grid)
         kwargs["axes"] = axes or self._axes
@@ -421,7 +423,7 @@ class FlowField(Image):
 
     def _make_instance(
         self: TFlowField,
-        data: Tensor,
+        data: Optional[Tensor] = None,
         grid: Optional[Grid] = None,
         axes: Optional[Axes] = None,
         **kwargs,
